@@ -31,6 +31,34 @@ package dkg
 //     are scanned again after the run.
 //   - agreement: all operating members complete, output the same public key,
 //     the same misbehaved list, and that list equals the exclusion set.
+//   - progress attribution (white-box, never the wall clock): duplicates and
+//     early messages must not decide whether the attempt completes.
+//     (1) transition: whenever the machine calls Next() on a state that waits
+//     for a message type, the history must hold a legitimate message of that
+//     type from EVERY operating member other than the member itself
+//     (de-duplicated per sender); the silent symmetric-key state waits for
+//     nothing (states.go: CanTransition returns true) and is exempt.
+//     (2) stuck: when a member does not finish, its current state object is
+//     inspected after all goroutines of the run have returned: if Initiate
+//     has returned, the history holds a legitimate awaited message from every
+//     other operating member and CanTransition() still answers false (asked
+//     three times), the member can never move on - a violation whatever the
+//     speed of the machine (a merely slow run is never in that situation).
+//     The same predicate (completeness computed BEFORE asking the state) is
+//     evaluated at every poll of the machine so that such a run is stopped at
+//     once instead of waiting for the watchdog; the verdict is always the one
+//     taken at quiescence.
+//     (3) a member whose Execute returns an error while the run context is
+//     still alive failed on its own (not because the monitor cancelled).
+//     (4) black-box variant of (1) for the Executor.Execute member: it must
+//     not send its phase k+1 message before its handler has even been handed
+//     a legitimate phase k message from every other operating member.
+//     In every run one receiver Y is scripted: for the scripted phases the
+//     message of member X is handed to Y twice in a row (a protocol-level
+//     duplicate, below the network retransmission filter) and the message of
+//     a "slow" member Z is withheld until Y has been handed X's duplicate and
+//     the message of every other member, so the duplicate deterministically
+//     sits in the history before the slowest member's message.
 //   - algebra: Ks = {seed + original index} of the operating members, every
 //     member's ShareID is its own identity, BigXj[j] = Xi_j*G, and every
 //     (t+1)-subset of the secret shares interpolates (Lagrange at 0 over Ks) to
@@ -201,6 +229,25 @@ func c07StateNo(s state.AsyncState) int {
 	return 0
 }
 
+// c07AwaitedType is the message type whose arrival from every other operating
+// member ends the given state (states.go CanTransition); the symmetric-key
+// state (2) waits for nothing: its CanTransition is the constant true.
+func c07AwaitedType(stateNo int) string {
+	switch stateNo {
+	case 1:
+		return (&ephemeralPublicKeyMessage{}).Type()
+	case 3:
+		return (&tssRoundOneMessage{}).Type()
+	case 4:
+		return (&tssRoundTwoMessage{}).Type()
+	case 5:
+		return (&tssRoundThreeMessage{}).Type()
+	case 6:
+		return (&tssFinalizationMessage{}).Type()
+	}
+	return ""
+}
+
 var c07AllTypes = []string{
 	(&ephemeralPublicKeyMessage{}).Type(),
 	(&tssRoundOneMessage{}).Type(),
@@ -319,6 +366,12 @@ type c07Plan struct {
 	injectProb  float64
 	race        bool
 	holdSleepMs int // race mode only: plain sleep instead of an observed hold
+	// scripted duplicate: at receiver scriptY, for the message types awaited by
+	// the states scriptStates, scriptX's message is handed over twice in a row
+	// and scriptZ's message is withheld until that happened and every other
+	// operating member's message of the type was handed over
+	scriptY, scriptX, scriptZ group.MemberIndex
+	scriptStates              []int
 }
 
 func (p *c07Plan) operating() []group.MemberIndex {
@@ -332,8 +385,9 @@ func (p *c07Plan) operating() []group.MemberIndex {
 }
 
 func (p *c07Plan) desc() string {
-	return fmt.Sprintf("n=%d honest=%d excluded=%v seed=%s hold=m%d@state%d(want %d) executor=m%d preparams+%d delay<=%dms dup=%.2f inject=%.2f",
-		p.n, p.n-p.dt, p.excluded, p.seed.Text(16), p.holdMember, p.holdState, p.holdWant, p.execMember, p.ppOffset, p.maxDelayMs, p.dupProb, p.injectProb)
+	return fmt.Sprintf("n=%d honest=%d excluded=%v seed=%s hold=m%d@state%d(want %d) executor=m%d preparams+%d delay<=%dms dup=%.2f inject=%.2f script(at m%d: m%d twice before slow m%d, states %v)",
+		p.n, p.n-p.dt, p.excluded, p.seed.Text(16), p.holdMember, p.holdState, p.holdWant, p.execMember, p.ppOffset, p.maxDelayMs, p.dupProb, p.injectProb,
+		p.scriptY, p.scriptX, p.scriptZ, p.scriptStates)
 }
 
 func c07In(l []group.MemberIndex, x group.MemberIndex) bool {
@@ -389,6 +443,26 @@ func c07MakePlan(idx, n, dt int, excluded []group.MemberIndex, rng *rand.Rand, r
 	p.maxDelayMs = []int{5, 30, 30, 60}[rng.Intn(4)]
 	p.dupProb = []float64{0.1, 0.25, 0.5}[rng.Intn(3)]
 	p.injectProb = []float64{0.6, 0.9}[rng.Intn(2)]
+	// the scripted receiver is a proxied member (its history is inspected at
+	// the transition); X and Z are two other operating members (there are at
+	// least two: the honest threshold of a 3-of-5 / 4-of-7 group is >= 3)
+	p.scriptY = proxied[rng.Intn(len(proxied))]
+	var others []group.MemberIndex
+	for _, o := range ops {
+		if o != p.scriptY {
+			others = append(others, o)
+		}
+	}
+	rng.Shuffle(len(others), func(i, j int) { others[i], others[j] = others[j], others[i] })
+	p.scriptX, p.scriptZ = others[0], others[1]
+	for _, st := range []int{1, 3, 4, 5, 6} {
+		if rng.Intn(2) == 0 {
+			p.scriptStates = append(p.scriptStates, st)
+		}
+	}
+	if len(p.scriptStates) == 0 {
+		p.scriptStates = []int{[]int{1, 3, 4, 5, 6}[rng.Intn(5)]}
+	}
 	return p
 }
 
@@ -405,13 +479,104 @@ type c07Obs struct {
 	admitted     int
 	foreign      map[string]int // class -> receives
 	foreignAdm   []string       // violations: class@state
-	legitDropped []string // state types that dropped a legitimate message
+	legitDropped []string       // state types that dropped a legitimate message
 	lagReceives  int
 	maxLag       int
 	dupDelivered int
 	injectedSent map[string]int
 	ahead        int64 // atomic
 	holdObserved int
+
+	// progress attribution. cur and the transition fields are owned by the
+	// machine's main loop (Next), the poll counters are atomics written by
+	// the state's polling goroutine, exec* (Executor.Execute member, non-race
+	// pass only) are guarded by mu.
+	cur                *c07Proxy
+	transitionsChecked int
+	transitionsWithDup int
+	transitionsSilent  int
+	earlyTransitions   []c07Early
+	scriptOrdered      int   // transitions whose history had X twice before Z's first
+	scriptedDups       int   // written by the channel's receive goroutine
+	scriptFallbacks    int32 // atomic: withheld message released by the safety timer
+	pollsComplete      int64 // atomic: polls with a complete message set that answered true
+	suspect            int64 // atomic: polls with a complete message set that answered false
+	mu                 sync.Mutex
+	execFed            map[string]map[group.MemberIndex]bool
+	execSendsChecked   int
+	execEarly          []c07Early
+}
+
+// c07Early describes a transition (or a send) that happened with an incomplete
+// set of awaited messages.
+type c07Early struct {
+	State   string `json:"state"`
+	Awaited string `json:"awaited_type"`
+	Counts  string `json:"legit_entries_per_sender"`
+	Missing []int  `json:"missing_senders"`
+	Dups    bool   `json:"duplicates_present"`
+}
+
+// c07Tally is the per-sender view of the legitimate history entries of one
+// message type (legitimate = classify(...) == "": current session, member
+// index of the group, signed with that member's operator key, operating, not
+// the receiver itself - the predicate of the admission rule).
+type c07Tally struct {
+	counts  map[group.MemberIndex]int
+	order   []group.MemberIndex // senders of the legitimate entries in history order
+	missing []group.MemberIndex
+	dups    bool
+}
+
+func (t *c07Tally) complete() bool { return len(t.missing) == 0 }
+
+func (t *c07Tally) String() string {
+	var ks []int
+	for k := range t.counts {
+		ks = append(ks, int(k))
+	}
+	sort.Ints(ks)
+	var sb strings.Builder
+	for i, k := range ks {
+		if i > 0 {
+			sb.WriteByte(' ')
+		}
+		fmt.Fprintf(&sb, "m%d:%d", k, t.counts[group.MemberIndex(k)])
+	}
+	return sb.String()
+}
+
+func (t *c07Tally) early(stateName, typ string) c07Early {
+	e := c07Early{State: stateName, Awaited: typ, Counts: t.String(), Dups: t.dups}
+	for _, m := range t.missing {
+		e.Missing = append(e.Missing, int(m))
+	}
+	return e
+}
+
+func (e *c07Env) tallyOf(me group.MemberIndex, msgs []net.Message) *c07Tally {
+	t := &c07Tally{counts: map[group.MemberIndex]int{}}
+	for _, m := range msgs {
+		if e.classify(me, m) != "" {
+			continue
+		}
+		s := m.Payload().(message).SenderID()
+		t.counts[s]++
+		t.order = append(t.order, s)
+		if t.counts[s] > 1 {
+			t.dups = true
+		}
+	}
+	for _, o := range e.operating {
+		if o != me && t.counts[o] == 0 {
+			t.missing = append(t.missing, o)
+		}
+	}
+	return t
+}
+
+func (e *c07Env) tally(me group.MemberIndex, base *state.BaseAsyncState, typ string) *c07Tally {
+	return e.tallyOf(me, base.GetAllReceivedMessages(typ))
 }
 
 // c07Env is the immutable description of one run shared by all members.
@@ -467,10 +632,16 @@ type c07Proxy struct {
 	env     *c07Env
 	obs     *c07Obs
 	stateNo int
+	// initiated is set (atomically, by the goroutine that ran Initiate) once
+	// Initiate has returned without error: from then on the machine polls
+	// CanTransition
+	initiated int32
 }
 
 func c07Wrap(s state.AsyncState, base *state.BaseAsyncState, env *c07Env, obs *c07Obs) *c07Proxy {
-	return &c07Proxy{inner: s, base: base, env: env, obs: obs, stateNo: c07StateNo(s)}
+	p := &c07Proxy{inner: s, base: base, env: env, obs: obs, stateNo: c07StateNo(s)}
+	obs.cur = p
+	return p
 }
 
 func (p *c07Proxy) Initiate(ctx context.Context) error {
@@ -494,6 +665,9 @@ func (p *c07Proxy) Initiate(ctx context.Context) error {
 		if atomic.LoadInt64(&p.obs.ahead) >= int64(pl.holdWant) {
 			p.obs.holdObserved = 1
 		}
+	}
+	if err == nil {
+		atomic.StoreInt32(&p.initiated, 1)
 	}
 	return err
 }
@@ -538,9 +712,64 @@ func (p *c07Proxy) Receive(msg net.Message) error {
 	return err
 }
 
-func (p *c07Proxy) CanTransition() bool { return p.inner.CanTransition() }
+// CanTransition forwards the machine's poll. The completeness of the awaited
+// message set is computed BEFORE the state is asked: the history only grows,
+// so "complete before" implies "complete while the state evaluated its
+// condition", and a state that answers false then is suspected of being stuck.
+// The suspicion only stops the run early; the verdict is taken at quiescence.
+func (p *c07Proxy) CanTransition() bool {
+	typ := c07AwaitedType(p.stateNo)
+	complete := typ != "" && p.env.tally(p.obs.id, p.base, typ).complete()
+	ok := p.inner.CanTransition()
+	if complete {
+		if ok {
+			atomic.AddInt64(&p.obs.pollsComplete, 1)
+		} else if atomic.AddInt64(&p.obs.suspect, 1) == 1 {
+			p.env.abort()
+		}
+	}
+	return ok
+}
 
 func (p *c07Proxy) Next() (state.AsyncState, error) {
+	// the machine moves this member on: the awaited messages of every other
+	// operating member must be in the history now (Next runs on the machine's
+	// main loop, the only writer of the history)
+	if typ := c07AwaitedType(p.stateNo); typ == "" {
+		p.obs.transitionsSilent++
+	} else {
+		t := p.env.tally(p.obs.id, p.base, typ)
+		p.obs.transitionsChecked++
+		if t.dups {
+			p.obs.transitionsWithDup++
+		}
+		if !t.complete() {
+			p.obs.earlyTransitions = append(p.obs.earlyTransitions, t.early(fmt.Sprintf("%T", p.inner), typ))
+			p.env.abort()
+		}
+		pl := p.env.plan
+		scriptedState := false
+		for _, st := range pl.scriptStates {
+			scriptedState = scriptedState || st == p.stateNo
+		}
+		if pl.scriptY == p.obs.id && scriptedState {
+			// did the scripted order reach the history: X's second entry
+			// before Z's first
+			xs, ok := 0, false
+			for _, s := range t.order {
+				if s == pl.scriptX {
+					xs++
+				}
+				if s == pl.scriptZ {
+					ok = xs >= 2
+					break
+				}
+			}
+			if ok {
+				p.obs.scriptOrdered++
+			}
+		}
+	}
 	n, err := p.inner.Next()
 	if err != nil || n == nil {
 		return n, err
@@ -563,9 +792,11 @@ type c07Chan struct {
 	runCtx  context.Context
 }
 
-func (c *c07Chan) Name() string                                       { return c.inner.Name() }
-func (c *c07Chan) SetUnmarshaler(u func() net.TaggedUnmarshaler)      { c.inner.SetUnmarshaler(u) }
-func (c *c07Chan) SetFilter(filter net.BroadcastChannelFilter) error { return c.inner.SetFilter(filter) }
+func (c *c07Chan) Name() string                                  { return c.inner.Name() }
+func (c *c07Chan) SetUnmarshaler(u func() net.TaggedUnmarshaler) { c.inner.SetUnmarshaler(u) }
+func (c *c07Chan) SetFilter(filter net.BroadcastChannelFilter) error {
+	return c.inner.SetFilter(filter)
+}
 
 func (c *c07Chan) inject(class string, ch net.BroadcastChannel, m net.TaggedMarshaler) {
 	if m == nil || ch == nil {
@@ -576,9 +807,76 @@ func (c *c07Chan) inject(class string, ch net.BroadcastChannel, m net.TaggedMars
 	}
 }
 
+// execCheckSend is the black-box transition check for the member that runs
+// through Executor.Execute (no handle on its states): sending the message of
+// state k+1 proves that state k was left; the state's history is a subset of
+// what the handler was handed, so if even that is incomplete the transition
+// happened with an incomplete set.
+func (c *c07Chan) execCheckSend(pm message) {
+	pl := c.env.plan
+	if pl.race || c.id != pl.execMember {
+		return
+	}
+	prev := 0
+	switch c07StateOfType(pm.Type()) {
+	case 3:
+		prev = 1 // the silent state 2 lies in between
+	case 4:
+		prev = 3
+	case 5:
+		prev = 4
+	case 6:
+		prev = 5
+	default:
+		return
+	}
+	typ := c07AwaitedType(prev)
+	o := c.obs
+	o.mu.Lock()
+	defer o.mu.Unlock()
+	o.execSendsChecked++
+	e := c07Early{State: fmt.Sprintf("state %d (left before sending %s)", prev, pm.Type()), Awaited: typ}
+	var have []string
+	for _, op := range c.env.operating {
+		if op == c.id {
+			continue
+		}
+		if o.execFed[typ][op] {
+			have = append(have, fmt.Sprintf("m%d", op))
+		} else {
+			e.Missing = append(e.Missing, int(op))
+		}
+	}
+	e.Counts = "handed to the handler: " + strings.Join(have, " ")
+	if len(e.Missing) > 0 {
+		o.execEarly = append(o.execEarly, e)
+		c.env.abort()
+	}
+}
+
+// execNoteFed records (before the handler is called) that a legitimate message
+// is handed to the Executor.Execute member.
+func (c *c07Chan) execNoteFed(m net.Message) {
+	pl := c.env.plan
+	if pl.race || c.id != pl.execMember || c.env.classify(c.id, m) != "" {
+		return
+	}
+	o := c.obs
+	o.mu.Lock()
+	if o.execFed == nil {
+		o.execFed = map[string]map[group.MemberIndex]bool{}
+	}
+	if o.execFed[m.Type()] == nil {
+		o.execFed[m.Type()] = map[group.MemberIndex]bool{}
+	}
+	o.execFed[m.Type()][m.Payload().(message).SenderID()] = true
+	o.mu.Unlock()
+}
+
 func (c *c07Chan) Send(ctx context.Context, m net.TaggedMarshaler, strategy ...net.RetransmissionStrategy) error {
 	pm, ok := m.(message)
 	if ok {
+		c.execCheckSend(pm)
 		env, rng, n := c.env, c.sendRng, c.env.plan.n
 		p := env.plan.injectProb
 		// hostile traffic goes out *before* the honest message, so that an
@@ -607,13 +905,106 @@ func (c *c07Chan) Send(ctx context.Context, m net.TaggedMarshaler, strategy ...n
 	return c.inner.Send(ctx, m, strategy...)
 }
 
+// c07ScriptType is the scripted delivery of one message type at the scripted
+// receiver. Apart from `released` it is touched only by the channel's receive
+// goroutine (the local channel calls the Recv callback from one goroutine,
+// after its retransmission filter).
+type c07ScriptType struct {
+	seen     map[group.MemberIndex]bool
+	dupDone  bool
+	pendingZ func()
+	released int32 // atomic: Z's withheld message went out
+}
+
+func (c *c07Chan) newScript() map[string]*c07ScriptType {
+	pl := c.env.plan
+	if pl.scriptY != c.id {
+		return nil
+	}
+	sc := map[string]*c07ScriptType{}
+	for _, st := range pl.scriptStates {
+		sc[c07AwaitedType(st)] = &c07ScriptType{seen: map[group.MemberIndex]bool{}}
+	}
+	return sc
+}
+
+// scripted handles a legitimate message of a scripted type at the scripted
+// receiver and reports whether it took the message over. X's message is handed
+// over twice in a row, every other sender's once and at once, Z's only after
+// all of that (plus a pause longer than the machine's polling interval, so
+// that the machine gets to look at the history with the duplicate in and Z's
+// message missing). Handing over is sequential on this goroutine, the
+// machine's receive buffer is a FIFO: the order in the history is the order
+// produced here. A safety timer releases Z's message anyway.
+func (c *c07Chan) scripted(sc map[string]*c07ScriptType, m net.Message, deliver func()) bool {
+	st := sc[m.Type()]
+	if st == nil || c.env.classify(c.id, m) != "" {
+		return false
+	}
+	pl := c.env.plan
+	s := m.Payload().(message).SenderID()
+	if st.seen[s] {
+		return false
+	}
+	st.seen[s] = true
+	condMet := func() bool {
+		if !st.dupDone {
+			return false
+		}
+		for _, o := range c.env.operating {
+			if o != c.id && o != pl.scriptZ && !st.seen[o] {
+				return false
+			}
+		}
+		return true
+	}
+	if s == pl.scriptZ {
+		release := func() {
+			if atomic.CompareAndSwapInt32(&st.released, 0, 1) {
+				deliver()
+			}
+		}
+		if condMet() {
+			time.AfterFunc(250*time.Millisecond, release)
+		} else {
+			st.pendingZ = release
+			time.AfterFunc(20*time.Second, func() {
+				if atomic.LoadInt32(&st.released) == 0 {
+					atomic.AddInt32(&c.obs.scriptFallbacks, 1)
+				}
+				release()
+			})
+		}
+		return true
+	}
+	if s == pl.scriptX {
+		c.obs.dupDelivered++
+		c.obs.scriptedDups++
+		deliver()
+		deliver()
+		st.dupDone = true
+	} else {
+		deliver()
+	}
+	if st.pendingZ != nil && condMet() {
+		time.AfterFunc(250*time.Millisecond, st.pendingZ)
+		st.pendingZ = nil
+	}
+	return true
+}
+
 func (c *c07Chan) Recv(ctx context.Context, handler func(m net.Message)) {
 	pl := c.env.plan
+	sc := c.newScript()
 	c.inner.Recv(ctx, func(m net.Message) {
 		deliver := func() {
 			if ctx.Err() == nil {
+				c.execNoteFed(m)
 				handler(m)
 			}
+		}
+		if sc != nil && c.scripted(sc, m, deliver) {
+			return
 		}
 		d := time.Duration(c.recvRng.Intn(pl.maxDelayMs*1000+1)) * time.Microsecond
 		time.AfterFunc(d, deliver)
@@ -637,6 +1028,9 @@ type c07Out struct {
 	obs      *c07Obs
 	// firstFailure marks the member whose own error ended the run
 	firstFailure bool
+	// failedLive: Execute returned an error (or panicked) while the run
+	// context was still alive, i.e. not because the monitor cancelled
+	failedLive bool
 }
 
 type c07Fixture struct {
@@ -752,6 +1146,9 @@ func c07Run(r *verifkit.Run, f *c07Fixture, pl *c07Plan, rng *rand.Rand, watchdo
 		go func() {
 			defer wg.Done()
 			defer func() {
+				if (out.err != nil || out.panicked) && ctx.Err() == nil {
+					out.failedLive = true
+				}
 				if (out.err != nil || out.panicked) && atomic.LoadInt32(&watchdogFired) == 0 {
 					stopOnce.Do(func() {
 						out.firstFailure = true
@@ -917,8 +1314,81 @@ func c07Judge(r *verifkit.Run, pl *c07Plan, rr *c07RunResult) (nontrivial bool) 
 	r.Count("legit_not_admitted", int64(legitDropped))
 	nontrivial = len(pl.excluded) > 0 || injectedReceived > 0 || lagReceives > 0
 
+	// ---- progress attribution (white-box; all goroutines of the run returned)
+	var suspects int64
+	var where []string // where every unfinished member stands (diagnosis)
+	stuckConfirmed := false
+	for _, o := range rr.outs {
+		ob := o.obs
+		r.Count("transitions_checked", int64(ob.transitionsChecked))
+		r.Count("transitions_with_duplicates_in_history", int64(ob.transitionsWithDup))
+		r.Count("transitions_of_silent_state_exempt", int64(ob.transitionsSilent))
+		r.Count("scripted_duplicates_handed_over", int64(ob.scriptedDups))
+		r.Count("transitions_with_scripted_dup_before_slow_member", int64(ob.scriptOrdered))
+		r.Count("scripted_withheld_released_by_safety_timer", int64(atomic.LoadInt32(&ob.scriptFallbacks)))
+		r.Count("polls_with_complete_messages_answered_true", atomic.LoadInt64(&ob.pollsComplete))
+		suspects += atomic.LoadInt64(&ob.suspect)
+		for _, e := range ob.earlyTransitions {
+			viol("dkg:transition-with-incomplete-messages",
+				fmt.Sprintf("member %d left state %s although its history holds no legitimate %s message from member(s) %v (entries per sender: %s; duplicates present: %v)",
+					o.id, e.State, e.Awaited, e.Missing, e.Counts, e.Dups),
+				map[string]interface{}{"member": o.id, "excluded": pl.excluded, "transition": e})
+		}
+		ob.mu.Lock()
+		r.Count("executor_member_sends_checked", int64(ob.execSendsChecked))
+		for _, e := range ob.execEarly {
+			viol("dkg:transition-with-incomplete-messages",
+				fmt.Sprintf("member %d (Executor.Execute) left %s: its handler had not even been handed a legitimate %s message from member(s) %v (%s)",
+					o.id, e.State, e.Awaited, e.Missing, e.Counts),
+				map[string]interface{}{"member": o.id, "excluded": pl.excluded, "transition": e})
+		}
+		ob.mu.Unlock()
+
+		if o.res != nil || o.panicked {
+			continue
+		}
+		cur := ob.cur
+		if o.base == nil || cur == nil {
+			where = append(where, fmt.Sprintf("m%d: via Executor.Execute (no handle on its state)", o.id))
+			continue
+		}
+		typ := c07AwaitedType(cur.stateNo)
+		initiated := atomic.LoadInt32(&cur.initiated) == 1
+		if typ == "" {
+			where = append(where, fmt.Sprintf("m%d: %T initiated=%v (awaits nothing)", o.id, cur.inner, initiated))
+			continue
+		}
+		t := env.tally(o.id, o.base, typ)
+		where = append(where, fmt.Sprintf("m%d: %T initiated=%v awaited entries [%s] missing %v", o.id, cur.inner, initiated, t.String(), t.missing))
+		if o.failedLive {
+			continue // failed on its own: judged below
+		}
+		if !initiated || !t.complete() {
+			continue // still computing, or really waiting for somebody
+		}
+		r.Count("unfinished_members_with_complete_messages_inspected", 1)
+		can := false
+		r.Guard("dkg:stuck-inspection:", desc, func() {
+			for k := 0; k < 3; k++ {
+				if cur.inner.CanTransition() {
+					can = true
+				}
+			}
+		})
+		if !can {
+			stuckConfirmed = true
+			viol("dkg:stuck-with-complete-messages",
+				fmt.Sprintf("member %d cannot leave state %T: Initiate returned, the history holds a legitimate %s message from every other operating member (entries per sender: %s; duplicates present: %v), yet CanTransition() answers false at quiescence (asked 3 times)",
+					o.id, cur.inner, typ, t.String(), t.dups),
+				map[string]interface{}{"member": o.id, "excluded": pl.excluded, "state": fmt.Sprintf("%T", cur.inner),
+					"awaited_type": typ, "legit_entries_per_sender": t.String(), "duplicates_present": t.dups,
+					"polls_answered_false_with_complete_messages": atomic.LoadInt64(&ob.suspect)})
+		}
+	}
+	r.Count("polls_with_complete_messages_answered_false", suspects)
+
 	// ---- completion
-	var failed []string
+	var failed, live []string
 	panicked := false
 	for _, o := range rr.outs {
 		if o.panicked {
@@ -929,6 +1399,9 @@ func c07Judge(r *verifkit.Run, pl *c07Plan, rr *c07RunResult) (nontrivial bool) 
 			if o.firstFailure {
 				tag = " (first failure)"
 			}
+			if o.failedLive {
+				tag += " (run context still alive)"
+			}
 			failed = append(failed, fmt.Sprintf("member %d%s: %v", o.id, tag, o.err))
 		}
 	}
@@ -936,15 +1409,54 @@ func c07Judge(r *verifkit.Run, pl *c07Plan, rr *c07RunResult) (nontrivial bool) 
 		return nontrivial // already a violation through Guard
 	}
 	if len(failed) > 0 {
-		if rr.ctxExpired {
-			if !violated {
-				r.Inconclusive(fmt.Sprintf("watchdog expired before the key generation finished (legit messages not admitted: %d): %s | %s", legitDropped, desc, strings.Join(failed, "; ")))
-			}
+		if violated {
+			// the run was stopped by the monitor after a definite violation
+			// (or the members starve behind a stuck one); the members' errors
+			// are a consequence
 			return nontrivial
 		}
-		if violated {
-			// the run was stopped by the monitor after a foreign message was
-			// admitted; the members' errors are a consequence
+		// a member that failed while the run context was alive failed on its
+		// own: nobody had cancelled, every operating member was running
+		for _, o := range rr.outs {
+			if !o.failedLive || o.err == nil {
+				continue
+			}
+			live = append(live, fmt.Sprintf("member %d: %v", o.id, o.err))
+			fp, what := "dkg:member-error", "an operating member failed (run context alive) although every operating member is honest"
+			wit := map[string]interface{}{"member": o.id, "excluded": pl.excluded, "error": o.err.Error()}
+			if o.base != nil && o.obs.cur != nil {
+				// every message consumed so far was in (the transitions were
+				// checked one by one above)
+				complete := true
+				var have []string
+				for st := 1; st < o.obs.cur.stateNo; st++ {
+					if typ := c07AwaitedType(st); typ != "" {
+						t := env.tally(o.id, o.base, typ)
+						complete = complete && t.complete()
+						have = append(have, fmt.Sprintf("state %d [%s]", st, t.String()))
+					}
+				}
+				wit["state"] = fmt.Sprintf("%T", o.obs.cur.inner)
+				wit["consumed_legit_entries_per_sender"] = have
+				if complete {
+					fp = "dkg:member-failed-with-complete-messages"
+					what = fmt.Sprintf("an operating member failed in state %T (run context alive) although every message it had to consume was in its history", o.obs.cur.inner)
+				}
+			}
+			viol(fp, what+": "+fmt.Sprintf("member %d: %v", o.id, o.err), wit)
+		}
+		if len(live) > 0 {
+			return nontrivial
+		}
+		diag := fmt.Sprintf("%s | %s | unfinished: %s", desc, strings.Join(failed, "; "), strings.Join(where, "; "))
+		if suspects > 0 && !stuckConfirmed {
+			// cannot happen with a CanTransition that is a function of the
+			// history; reported for completeness
+			r.Inconclusive("the monitor stopped the run on a stuck suspicion that was not confirmed at quiescence: " + diag)
+			return nontrivial
+		}
+		if rr.ctxExpired {
+			r.Inconclusive(fmt.Sprintf("watchdog expired before the key generation finished and no attribution rule applies (no member is stuck with a complete message set, no transition with an incomplete one, no member failed on its own; legit messages not admitted: %d): %s", legitDropped, diag))
 			return nontrivial
 		}
 		viol("dkg:member-error", "an operating member failed although every operating member is honest: "+strings.Join(failed, "; "), failed)
@@ -1075,7 +1587,7 @@ func c07Sample(pl *c07Plan, rr *c07RunResult) interface{} {
 func TestVerif_C07_DKG(t *testing.T) {
 	r := verifkit.Start(t, "C07", "dkg")
 	defer r.Finish()
-	r.SetRule("3-of-5 (thorough: also 4-of-7) key generations through the real AsyncMachine and net/local channels; exclusion sets: quick = {}, {1}, {n}, {1,2} + 4 PRNG picks of the 16 sets of size<=2, thorough = all 16 x 6 schedules + 24 4-of-7 runs; per run the PRNG fixes seed, held-back member/state, delivery delay bound, duplicate rate and the hostile traffic (excluded senders, other session, spoofed index). non-trivial = the run had >=1 excluded member, or a member received >=1 injected foreign message, or a member received a message of a later state than its own")
+	r.SetRule("3-of-5 (thorough: also 4-of-7) key generations through the real AsyncMachine and net/local channels; exclusion sets: quick = {}, {1}, {n}, {1,2} + 4 PRNG picks of the 16 sets of size<=2, thorough = all 16 x 6 schedules + 24 4-of-7 runs; per run the PRNG fixes seed, held-back member/state, delivery delay bound, duplicate rate, the hostile traffic (excluded senders, other session, spoofed index) and a scripted receiver at which, for PRNG-chosen phases, one member's message is handed over twice in a row before a withheld slower member's message. non-trivial = the run had >=1 excluded member, or a member received >=1 injected foreign message, or a member received a message of a later state than its own")
 	r.Assume("tss-lib key generation itself; operating members are honest (no Byzantine TSS payloads); the local broadcast channel authenticates the sender key")
 	r.SetExhaustive(false)
 
